@@ -364,8 +364,12 @@ impl Runner<'_> {
                 if !an.is_empty() && latent.is_empty() {
                     latent = an;
                     self.c.inc("latent.anomaly-seen");
-                    // switch to the probe suffix right away (DESIGN.md §3.3 item 2)
-                    break;
+                    // switch to the probe suffix right away (DESIGN.md §3.3 item 2) in one history out
+                    // of two; the other half goes on, because some defects need further puts and binds
+                    // of the history proper before they become observable (seeded change C01-B)
+                    if rng.chance(1, 2) {
+                        break;
+                    }
                 }
             }
         }
